@@ -354,6 +354,8 @@ def finish(run, matchers=None):
 
 
 def write_evidence(run, nviol, broken):
+    if os.environ.get("VERIF_NO_FALLBACK") == "1":
+        return          # a diagnostic sub-run against the committed HEAD (harness/main.py): not this run's evidence
     os.makedirs(EVIDENCE, exist_ok=True)
     pr = run.proof or {"obligations": 0, "discharged": 0, "theorems": {}}
     cov = {
